@@ -1,15 +1,26 @@
-"""C11 (strings are sequences of Unicode characters): the body of String.len — `impl LyNative for StringLen`, fn call, extracted as it is.  A
-string is a model with TWO lengths, the number of characters and the number of UTF-8 bytes (std's `str::len`), so that a body that answers the
-byte length fails the contract: the length of a string is the number of its characters."""
+"""C11 (strings are sequences of Unicode characters): the bodies of String.len and of string indexing — `impl LyNative for StringLen` and
+`impl LyNative for StringIndexGet`, fn call, extracted as they are.  A string is a model with TWO lengths, the number of characters and the number
+of UTF-8 bytes (std's `str::len`), so that a body that answers the byte length fails the contract: the length of a string is the number of its
+characters; `s[i]` is the one-character string of the i-th character, negative i counting from the end, and every fractional, NaN, infinite or
+out-of-range index is the error.  std's `chars()` / `nth` / `rev` and the float tests are named stubs over that model."""
 UNIT = dict(
   name='strlen',
   properties=['C11'],
-  items=[('laythe_lib/src/global/primitives/string.rs', [('impl LyNative for StringLen', ['call'])])],
+  items=[('laythe_lib/src/global/primitives/string.rs', [('impl LyNative for StringLen', ['call']), ('impl LyNative for StringIndexGet', ['call'])])],
   rewrites=[
     ('R15', 'kind:implhdr', dict(pat=r'impl LyNative for (\w+) \{', rep=r'impl \1 {', regex=True, count=1)),
+    ('R7', 'LyNative for StringIndexGet::call', dict(pat=r'^(\s*(?:///?[^\n]*\n\s*)*)fn ', rep=r'\1pub fn ', regex=True, count=1)),
     ('R7', 'LyNative for StringLen::call', dict(pat=r'^(\s*(?:///?[^\n]*\n\s*)*)fn ', rep=r'\1pub fn ', regex=True, count=1)),
     # R14: `E as f64` of a length and the val! macro -> named stubs (operands kept as written)
     ('R14', 'LyNative for StringLen::call', dict(pat=r'val!\((.*) as f64\)', rep=r'verif_num_value(\1)', regex=True, count=1)),
+    # R14: float tests and narrowing casts -> named stubs (operands kept as written)
+    ('R14', 'LyNative for StringIndexGet::call', dict(pat=r'(\w+)\.fract\(\) != 0\.0', rep=r'verif_has_fract(\1)', regex=True, optional=True)),
+    ('R14', 'LyNative for StringIndexGet::call', dict(pat=r'\b(\w+) >= 0\.0', rep=r'verif_ge_zero(\1)', regex=True, optional=True)),
+    ('R14', 'LyNative for StringIndexGet::call', dict(pat=r'\(-(\w+)\) as usize', rep=r'verif_neg_as_usize(\1)', regex=True, optional=True)),
+    ('R14', 'LyNative for StringIndexGet::call', dict(pat=r'\b(\w+) as usize', rep=r'verif_as_usize(\1)', regex=True, optional=True)),
+    # the one-character result string: `hooks.manage_str(c.encode_utf8(&mut buffer))` -> the managed string of that character
+    ('R6', 'LyNative for StringIndexGet::call', dict(pat=r'val!\(hooks\.manage_str\((\w+)\.encode_utf8\(&mut buffer\)\)\)', rep=r'verif_char_string(hooks, \1)', regex=True, count=1)),
+    ('R8', 'LyNative for StringIndexGet::call'),
   ],
-  assumption_ids=['A-std'],
+  assumption_ids=['A-std', 'A-float'],
 )
